@@ -6,7 +6,7 @@
 #ifndef NAMELEN
 #define NAMELEN 8
 #endif
-#define VERIF_INPUTS(S,A) A(char,name,NAMELEN+1) S(unsigned char,flag) S(unsigned char,which)
+#define VERIF_INPUTS(S,A) A(char,name,NAMELEN+1) S(unsigned char,flag) S(unsigned char,which) S(unsigned char,entry)
 #include "verif.h"
 #include "src/express/error.c"
 static int usage_called;
@@ -29,6 +29,24 @@ void harness(void) {
             if(LibErrors[i].severity >= SEVERITY_ERROR) CHECK(LibErrors[i].override == before[i] && ERRORis_enabled(i), "set_all_warnings never disables an ERROR-class entry");
         }
     } else {
+#ifdef TABLE_NAMES
+        /* the name is the class name of the entry-th table entry (symbolic index over the REAL table, ERROR-class entries included):
+         * covers every name the tools document, whatever its length */
+        { static char tn[40]; int k; ASSUME(entry < NERR); ASSUME(LibErrors[entry].name != 0);
+          for(k = 0; k < 39; k++) { char c = LibErrors[entry].name[k]; tn[k] = c; if(!c) break; }
+          tn[39] = 0;
+          ERRORset_warning(tn, flag & 1);
+          for(k = 0; k < 40; k++) name[k < NAMELEN ? k : NAMELEN] = 0;   /* not used below */
+          for(i = 0; i < NERR; i++) {
+              int m = LibErrors[i].severity <= SEVERITY_WARNING && LibErrors[i].name && streq(LibErrors[i].name, tn);
+              if(m) { matched = 1; CHECK(LibErrors[i].override == (flag & 1), "set_warning sets the matching warning class"); }
+              else CHECK(LibErrors[i].override == before[i], "set_warning leaves every other entry alone (in particular ERROR-class entries that carry a class name)");
+              if(LibErrors[i].severity >= SEVERITY_ERROR) CHECK(ERRORis_enabled(i), "set_warning never disables an ERROR-class entry");
+          }
+          CHECK((usage_called > 0) == !matched, "a name that is not a WARNING class reaches the usage function");
+          OBS("entry=%d matched=%d usage=%d", (int)entry, matched, usage_called);
+          VERIF_END(); return; }
+#endif
         ERRORset_warning(name, flag & 1);
         for(i = 0; i < NERR; i++) {
             int m = LibErrors[i].severity <= SEVERITY_WARNING && LibErrors[i].name && streq(LibErrors[i].name, name);
